@@ -154,6 +154,13 @@ def family(seed, count):
     for ctx in OPS:
         if not ctx: continue
         out.append({"a": ("", ("seq", [("op", ctx, ("op", "", ("seq", [L("x"), ("op", "", ("alt", [L(""), L("y")]))]))), L("w")])), "b": ("", L("y")), "c": ("", L("z"))})
+    # a mutually left-recursive cycle that is first reached from an earlier rule outside it (directly / behind a nullable prefix)
+    for left in (None, ("ref", "SOI"), ("op", "?", L("-")), ("op", "!", L("z")), ("op", "*", L(" "))):
+        for entry in (("ref", "b"), ("ref", "c")):
+            body_a = ("seq", [x for x in (left, entry, L("w")) if x is not None])
+            out.append({"a": ("", body_a), "b": ("", ("alt", [("ref", "c"), L("x")])), "c": ("", ("seq", [("ref", "b"), L("y")]))})
+            out.append({"a": ("", body_a), "b": ("", ("seq", [("op", "?", L("x")), ("ref", "c")])), "c": ("", ("alt", [("seq", [("ref", "b"), L("y")]), L("z")]))})
+            out.append({"a": ("", ("alt", [body_a, L("v")])), "d": ("", ("ref", "b")), "b": ("", ("alt", [("ref", "c"), L("x")])), "c": ("", ("seq", [("ref", "d"), L("y")]))})
     # left recursion through a rule that redefines a non-keyword built-in name
     for nm in ("NEWLINE", "ASCII_DIGIT", "LETTER", "NUMBER", "ASCII_ALPHA"):
         out.append({nm: ("", ("alt", [("seq", [("ref", nm), L("+"), L("x")]), L("x")])), "b": ("", L("y"))})
@@ -232,7 +239,7 @@ def run(ctx):
     rej = [(r, t, s["error"]) for r, t, s in zip(fam, texts, stages) if "error" in s]
     panics = [x for x in rej if x[2].startswith("PANIC")]
     t0 = time.time()
-    res = par.pmap(search, [(s["ast"], [n for n in r if n not in ("WHITESPACE", "COMMENT", "c")][:2], N) for r, t, s in acc], NCPU)
+    res = par.pmap(search, [(s["ast"], [n for n in r if n not in ("WHITESPACE", "COMMENT", "c", "d")][:2], N) for r, t, s in acc], NCPU)
     errs = [(acc[i][1], x[1]) for i, x in enumerate(res) if x[0] == "err"]
     if errs: raise Inconclusive(f"search failed on {len(errs)} grammars, e.g.\n{errs[0][0]}\n{errs[0][1][:1200]}")
     res = [x[1] for x in res]
